@@ -311,10 +311,16 @@ def run_dkw(rep, rng, drv, tier, util):
 PDF_FINDING = "C16-normal-pdf-relative-1e-15-argument-rounding"
 
 
-def pdf_finding_key(x):
+def pdf_finding_key(x, rel=None):
     """exp(-0.5*x*x) inherits the rounding of its argument: relative error ~ (x*x/2) * 2^-53, which exceeds
-    1e-15 only for |x| > 3 (at |x| <= 3 the bound is 4.5 * 1.1e-16 + 3 ulps < 1e-15)."""
-    return PDF_FINDING if abs(x) > 3.0 else None
+    1e-15 only for |x| > 3 (at |x| <= 3 the bound is 4.5 * 1.1e-16 + 3 ulps < 1e-15).
+    The key is given only while the observed relative error stays within that mechanism's bound
+    (x*x/2 + 4) * 2^-52; anything larger is a different defect and stays un-keyed."""
+    if abs(x) <= 3.0:
+        return None
+    if rel is not None and float(rel) > (x * x / 2 + 4) * 2.0 ** -52:
+        return None
+    return PDF_FINDING
 
 
 def run_normal(rep, rng, drv, tier, util):
@@ -343,7 +349,7 @@ def run_normal(rep, rng, drv, tier, util):
         rep.count("pdf_|x|" + ("<=3" if abs(x) <= 3 else "<=10" if abs(x) <= 10 else "<=37"))
         rel = abs(mp.mpf(v) - t) / t
         if rel > mp.mpf("1e-15"):
-            key = pdf_finding_key(x)
+            key = pdf_finding_key(x, rel)
             violate(rep, what="normal_pdf differs from the standard normal density by more than 1e-15 (relative)",
                         input=dict(x=x, x_hex=C.fhex(x)), expected=mp.nstr(t, 20), observed=v, relative_error=float(rel),
                         call=f"normal_pdf({x!r})", **({"finding_key": key} if key else {}))
